@@ -97,3 +97,47 @@ def param_atom(name: str):
         for a in T.TABLE.by_key.get((kind, name), ()):
             return a
     return None
+
+
+# ---- C03 / C04: geometry -------------------------------------------------------
+def V(name):
+    return Vec.sym(name)
+
+
+def kahan_angle(b1: Vec, b2: Vec) -> Rat:
+    """2*atan2(|e1 - e2|, |e1 + e2|) with e_i = b_i/|b_i| (W. Kahan, Cross.pdf par. 13)."""
+    e1, e2 = b1 / T.norm(b1), b2 / T.norm(b2)
+    return 2 * T.fn_atan2(T.norm(e1 - e2), T.norm(e1 + e2))
+
+
+def cross_dot_angle(b1: Vec, b2: Vec) -> Rat:
+    """The other epsilon-accurate form: atan2(|b1 x b2|, b1 . b2)."""
+    return T.fn_atan2(T.norm(T.cross(b1, b2)), T.dot(b1, b2))
+
+
+def geometry_definitions():
+    src, smp, pos = V('source_position'), V('sample_position'), V('position')
+    b1, b2 = smp - src, pos - smp
+    return {
+        'incident_beam': b1,
+        'scattered_beam': b2,
+        'L1': T.norm(b1),
+        'L2': T.norm(b2),
+        'Ltotal': T.norm(b1) + T.norm(b2),
+        'two_theta': kahan_angle(b1, b2),
+        'Ltotal_no_scatter': T.norm(pos - src),
+    }
+
+
+def beam_frame(b1: Vec, g: Vec):
+    """Beam-aligned unit vectors as documented: ey = -g/|g|, ez = proj/|proj|, ex = ey x ez."""
+    ey = -g / T.norm(g)
+    z = b1 - ey * T.dot(b1, ey)
+    ez = z / T.norm(z)
+    ex = T.cross(ey, ez)
+    return ex, ey, ez
+
+
+def gravity_drop(L2: Rat, lam: Rat, g: Vec) -> Rat:
+    """delta = |g| m_n^2 lambda^2 L2^2 / (2 h^2)"""
+    return T.norm(g) * m_n() ** 2 * lam**2 * L2**2 / (2 * h() ** 2)
